@@ -42,6 +42,8 @@ type joinKey struct{}
 
 // JoinController receives one event per message the join loop has finished handling.
 type JoinController struct {
+	// Sync, if set, is called on the join's own goroutine before the event is sent (e.g. to put a marker into an output log).
+	Sync   func(JoinEventInfo)
 	Events chan JoinEventInfo
 }
 
@@ -60,7 +62,11 @@ func JoinEvent(ctx context.Context, side string, kind string) {
 	if !ok || c == nil {
 		return
 	}
-	c.Events <- JoinEventInfo{Side: side, Kind: kind}
+	ev := JoinEventInfo{Side: side, Kind: kind}
+	if c.Sync != nil {
+		c.Sync(ev)
+	}
+	c.Events <- ev
 }
 
 // ---- crash points ---------------------------------------------------------------------------------------------------
